@@ -179,6 +179,36 @@ def f_eulerAngles : Family :=
   { name := "eulerAngles", kind := .poly, treeMode := true, treeWalk := true, keys := cfgs, nOut := fun _ => 3,
     spec := fun _ _ => zero, specT := fun _ j => eulerT j }
 
+/-! ### `quat_cast(mat3_cast q) = ±q`
+
+Unit `castprod`: the ten products `r_i r_j` (i ≤ j over w, x, y, z) of `r = quat_cast(mat3_cast q)`.  `r = ±q` is equivalent to
+`r_i r_j = q_i q_j` for all `i, j`.  `quat_cast` picks the largest of `4w²−1, 4x²−1, 4y²−1, 4z²−1` (three decisions), takes
+`s = sqrt(that + 1)` and divides by it; on each of the decision paths the identity holds as a rational function modulo
+`s² = (argument of the sqrt)` and `|q|² = 1`, with one of a small set of constant/monomial multipliers (tried in turn). -/
+def castA : Nat → E
+  | 0 => .sub (.lit 4 1) (.mul (.lit 4 1) (.add (.add (sq qx) (sq qy)) (sq qz)))      -- 4w² modulo |q|² = 1
+  | 1 => .mul (.lit 4 1) (sq qx)
+  | 2 => .mul (.lit 4 1) (sq qy)
+  | _ => .mul (.lit 4 1) (sq qz)
+def castS (b : Nat) : E := .call1 .sqrt (castA b)
+def castHyps : List (E × E) :=
+  [(.mul (castS 0) (castS 0), castA 0), (.mul (castS 1) (castS 1), castA 1), (.mul (castS 2) (castS 2), castA 2),
+   (.mul (castS 3) (castS 3), castA 3), (nrm2 0, one)]
+def castPairs : List (Nat × Nat) := [(0,0),(0,1),(0,2),(0,3),(1,1),(1,2),(1,3),(2,2),(2,3),(3,3)]
+def castSpec (j : Nat) : E := let p := castPairs.getD j (0, 0); .mul (qc 0 p.1) (qc 0 p.2)
+/-- multipliers tried: for the square-root hypothesis of branch `b` one of `0, 1, −k·spec`, for the unit-norm hypothesis the
+    matching one of `0, −4, 4k·spec` (`k = 1, 4, 16`: the literal scalings `0.5`, `0.25` of the code) -/
+def castCerts (spec : E) : List (List E) :=
+  let ks : List Int := [1, 4, 16]
+  let opts : List (E × E) := [(zero, zero), (one, zero), (one, .lit (-4) 1)] ++
+    ks.flatMap fun k => [(.mul (.lit (-k) 1) spec, zero), (.mul (.lit (-k) 1) spec, .mul (.lit (4 * k) 1) spec)]
+  (List.range 4).flatMap fun b => opts.map fun o => (List.range 4).map (fun i => if i = b then o.1 else zero) ++ [o.2]
+def castLeafOK (j : Nat) (_ : Path) (a b : E) : Bool :=
+  b == castSpec j && (castCerts (castSpec j)).any fun c => fracEqMod castHyps c a b
+def castOK (look : String → List Nat → Unit) (cfg : Nat) : Bool :=
+  (look "castprod" [cfg]).outs.length == 10 &&
+  (List.range 10).all fun j => treeEqv (implied true) (castLeafOK j) [] ((look "castprod" [cfg]).out j) (.leaf (castSpec j))
+
 def families : List Family :=
   [f_qmul, f_qcross, f_qmulv3, f_qmulv4, f_vmulq3, f_mat3cast, f_mat4cast, f_mat3ofprod, f_mat3orth, f_conjugate,
    f_qinverse, f_qinverse_id, f_qdot, f_qlength, f_qnormalize, f_qadd, f_qsub, f_qneg, f_qmuls, f_qdivs,
